@@ -200,9 +200,10 @@ func VC15_inject() {
 // VC15_truncate: names longer than the limit are cut to exactly 4096 bytes and end in the
 // truncation marker; shorter ones are untouched.
 func VC15_truncate() {
-	// one frame whose function name length puts the total near the limit
+	// a first frame whose function name length puts the total near the limit, and
+	// optionally a second frame of the same package (its line starts with a ditto mark)
 	base := len("p\n" + "pk." + ":+0,+0x0")
-	n := 4096 - base - 2 + vrt.Choose(5) // total in 4094..4098
+	n := 4096 - base - 16 + vrt.Choose(22) // first line ends 16 bytes before .. 5 bytes after the limit
 	fn := make([]byte, n)
 	for i := range fn {
 		fn[i] = 'a'
@@ -210,15 +211,25 @@ func VC15_truncate() {
 	fn[0] = vrt.U8()
 	vrt.Assume(fn[0] != '.' && fn[0] != '\n' && fn[0] != '"')
 	rf := []vruntime.Frame{{PC: 100, Entry: 100, Function: "pk." + string(fn), Func: &vruntime.Func{}}}
-	vruntime.FramesHook = func([]uintptr) []vruntime.Frame { return rf }
-	enc := EncodeStack(make([]uintptr, 1), "p")
 	total := base + n
+	second := ""
+	if vrt.Bool() {
+		f2 := []string{"g", "gggggggggggggggggggggggggggggg"}[vrt.Choose(2)]
+		rf = append(rf, vruntime.Frame{PC: 200, Entry: 200, Function: "pk." + f2, Func: &vruntime.Func{}})
+		second = "\n\"." + f2 + ":+0,+0x0"
+		total += len(second)
+	}
+	vruntime.FramesHook = func([]uintptr) []vruntime.Frame { return rf }
+	enc := EncodeStack(make([]uintptr, len(rf)), "p")
 	vrt.Assert(len(enc) <= 4096, "EncodeStack: never longer than 4096 bytes")
 	const marker = "\ntruncated\n"
 	if total > 4096 {
 		vrt.Assert(len(enc) == 4096 && enc[len(enc)-len(marker):] == marker, "EncodeStack: truncated names end in the marker")
 	} else {
 		vrt.Assert(len(enc) == total && enc[len(enc)-len(marker):] != marker, "EncodeStack: names within the limit are not marked")
+		if second != "" {
+			vrt.Assert(enc[len(enc)-len(second):] == second, "EncodeStack: within the limit no frame is dropped")
+		}
 	}
 }
 
